@@ -814,6 +814,9 @@ func main() {
 	// longest first: the big choice-tape walks must not start last
 	sort.SliceStable(rtasks, func(i, j int) bool { return cost(rtasks[i]) > cost(rtasks[j]) })
 
+	if os.Getenv("C09_ONLY") == "" {
+		hugeFamily()
+	}
 	// ---- write side
 	engine.ParallelFor(len(wtasks), func(slot, i int) {
 		t := wtasks[i]
@@ -989,6 +992,17 @@ func replay(genNodes int) {
 	var c Case
 	if err := json.Unmarshal(rp.Case, &c); err != nil {
 		engine.HarnessError("bad case: %v", err)
+	}
+	if c.Side == "huge" {
+		var h hugeCase
+		json.Unmarshal(rp.Case, &h)
+		for j := 0; j < 5; j++ {
+			if class, detail := runHuge(h); class != "" {
+				rep.Fail(engine.Failure{Class: class, Detail: detail, Case: h}, 0)
+			}
+		}
+		rep.Eval(5)
+		rep.Finish()
 	}
 	if c.Side == "write" {
 		for _, op := range allWriteOps() {
